@@ -77,6 +77,9 @@ def gen_sdl_ops(rng, L):
             [["iter"]] + N(a) + [["state"], ["load", 0], ["state"], ["iter"]] + N(b),
             [["iter"]] + N(L + 1) + [["state"], ["fresh"], ["load", 0], ["iter"]] + N(b) + [["iter"]] + N(b),
             [["iter"]] + N(L) + [["state"], ["fresh"], ["load", 0], ["iter"]] + N(b),
+            # an end-of-epoch state is loaded, the next epoch is part-way through: state_dict() must describe THAT iterator
+            [["iter"]] + N(L + 1) + [["state"], ["fresh"], ["load", 0], ["iter"]] + N(b) + [["state"], ["fresh"], ["load", 1], ["iter"]] + N(L + 1),
+            [["iter"]] + N(L + 1) + [["state"], ["load", 0], ["iter"]] + N(a) + [["state"], ["load", 1], ["iter"]] + N(b) + [["state"]],
             # state_dict() between the load of an end-of-epoch state and iter(): the finished iterator it builds is not handed out
             [["iter"]] + N(L + 1) + [["state"], ["fresh"], ["load", 0], ["state"], ["iter"]] + N(b) + [["iter"]] + N(b),
             [["iter"]] + N(L) + [["next"], ["state"], ["load", 0], ["state"], ["state"], ["iter"]] + N(L + 1) + [["iter"]] + N(1),
